@@ -8,11 +8,15 @@ KINDS = ("path-hash", "shader-key-hash", "sha1-digest", "hash-outcome", "fiin-ou
 REP = [0x00, 0x2F, 0x2E, 0x5F, 0x30, 0x39, 0x41, 0x61, 0x5A, 0x7A, 0x4D, 0x7F]   # class representatives
 
 
+from gen import sqpack as _sqpack
+EMPTY_INDEX1 = _sqpack.index_file(1, []).hex()
+
+
 def batches(strings, n0, size, tag):
     out = []
     for i in range(0, len(strings), size):
         chunk = strings[i:i + size]
-        out.append(Case([{"op": "codec.hash", "case": n0 + i // size, "ss": chunk}],
+        out.append(Case([{"op": "codec.hash", "case": n0 + i // size, "ss": chunk, "_index1": EMPTY_INDEX1}],
                         desc={"hash-batch": tag, "first": chunk[0], "count": len(chunk)},
                         key="%s-%d" % (tag, i), nontrivial=any(len(s) > 0 for s in chunk)))
     return out
@@ -40,7 +44,8 @@ def check(run):
     longs = [[rng.randrange(128) for _ in range(4096)] for _ in range(2 if run.tier == "quick" else 12)]
     cases += batches(longs, 6000, 1, "len4096")
     paths = [list(p.encode()) for p in ["exd/root.exl", "EXD/ROOT.EXL", "chara/human/c0101/skeleton/base/b0001/skl_c0101b0001.sklb",
-                                        "PASS_0", "DecodeDepthBuffer", "bg/ffxiv/sea_s1/twn/s1t1/level/planmap.lgb"]]
+                                        "PASS_0", "DecodeDepthBuffer", "bg/ffxiv/sea_s1/twn/s1t1/level/planmap.lgb",
+                                        "bg/ffxiv/", "bg//file.tex", "bg/a//b.tex", "/", "//", "/x", "x/", "BG/Odd/"]]
     cases += batches(paths, 7000, 10, "paths")
     # SHA-1 through FileInfo::new: every length 0..300 and the padding edges
     n = 8000
